@@ -477,7 +477,7 @@ PROPS.update({
         theorems=[(CMP + 'C11', ['DX.defaultCtorArgs_vals', 'DX.into_iff_strlit_or_path', 'DX.default_struct_follows_doc',
                                  'DX.default_enum_rejections', 'DX.default_enum_follows_doc'])],
         l1=[('basic', 4000, 150000), ('all', 3000, 100000)],
-        extra=extras(extra_cmp_l2('defaultRun', None, 600, 12000), extra_programs(l2gen.gen_c11_program, 800, 16000, per=200, what='default() does not return the documented value'), extra_verdicts(l2gen.gen_c11_reject_case, 24, 200), extra_twins(360, 6000)),
+        extra=extras(extra_cmp_l2('defaultRun', None, 600, 12000), extra_programs(l2gen.gen_c11_program, 800, 16000, per=200, what='default() does not return the documented value'), extra_verdicts(l2gen.gen_c11_reject_case, 96, 1200), extra_twins(360, 6000)),
         labels=r':Default$',
     ),
     'C12': dict(
